@@ -13,8 +13,8 @@ PROPS = {
     "C19": {
         "level": "proof",
         "technique": "deductive verification of the real functions against sidecar contracts (pyvc VC generation + z3/cvc5), property lemma over the contracts; bounded run-time oracle as cross-check",
-        "level_text": "Every interval predicate of Fragment and the all-vs-all scan are proved, for all integers and all assembly sizes, to meet contracts transcribed from the statement; the consistency clauses (symmetry, exactly one of overlap/abut/gap, length = size of intersection) are a lemma over those contracts. The CLI report text is checked by a bounded oracle only.",
-        "level_note": "Trusted: the pyvc encoding of Python (DESIGN.md 3.1/3.3), the SMT solvers, list.extend/generator axioms. asm_format.report_overlaps output formatting is bounded, not proved.",
+        "level_text": "Every interval predicate of Fragment (overlaps, overlap_length, abuts, gap_between, and the class invariant start <= end they rest on) is proved, for all integers, to meet a contract transcribed from the statement; the consistency clauses (symmetry, overlap iff a shared base, exactly one of overlap/abut/positive gap, abut iff gap zero, length = size of the intersection and absent otherwise) are a lemma over those contracts. The all-vs-all scan (Assembly.all_vs_all_fragments / find_overlapping_fragments: 'each unordered pair once, across and within scaffolds') and the CLI report are decided by the bounded tier only and are not counted as proved.",
+        "level_note": "Trusted: the pyvc encoding of Python (DESIGN.md 3.1/3.3), the SMT solvers. BOUNDED (not proved): Assembly.all_vs_all_fragments, Assembly.find_overlapping_fragments (callback + nested range loops), asm_format.report_overlaps.",
         "lemmas": ["c19_predicates_consistent"],
         "bounded": [("bounded.c19", {})],
         "trusted": PREDICATE_TRUSTED + ["list.extend of a generator over Scaffold.fragments() equals the fragment rows in order (builtin axiom)"],
